@@ -188,7 +188,9 @@ func DecodeWTF8Rune(s string) (rune, int) {
 	}
 
 	if n < sz {
-		return utf8.RuneError, 0
+		// A truncated sequence at the end of the input is a single invalid byte.
+		// Returning a width of 0 here would make callers loop forever.
+		return utf8.RuneError, 1
 	}
 
 	s1 := s[1]
